@@ -483,7 +483,7 @@ fn ival_alphabet() -> Vec<i128> {
     v
 }
 
-const C07_WIDTHS: &[usize] = &[0, 1, 2, 3, 4, 5, 6, 7, 8, 9, 10, 11, 12, 13, 14, 15, 16, 17, 31, 32, 33, 63, 64, 65, 66, 127, 128, 129, 192, 256];
+const C07_WIDTHS: &[usize] = &[0, 1, 2, 3, 4, 5, 6, 7, 8, 9, 10, 11, 12, 13, 14, 15, 16, 17, 31, 32, 33, 40, 63, 64, 65, 66, 72, 127, 128, 129, 136, 192, 200, 256];
 const FROM_U: &[Op] = &[Op::try_from_u, Op::from_u, Op::wrapping_from_u, Op::saturating_from_u, Op::uint_try_from_u];
 const FROM_I: &[Op] = &[Op::try_from_i, Op::from_i, Op::wrapping_from_i, Op::saturating_from_i];
 const TO_U: &[Op] = &[Op::try_to_u, Op::try_to_u_ref, Op::to_u, Op::wrapping_to_u, Op::saturating_to_u, Op::uint_try_to_u];
@@ -666,8 +666,8 @@ fn uu_grid(r: &Runner) {
 
 // ---------------------------------------------------------------- C08
 
-const C08_WIDTHS_Q: &[usize] = &[0, 1, 2, 3, 4, 5, 6, 7, 8, 9, 10, 11, 12, 13, 14, 15, 16, 17, 24, 25, 60, 63, 64, 65, 120, 121, 127, 128, 129, 192, 250, 256, 257];
-const C08_WIDTHS_T: &[usize] = &[0, 1, 2, 3, 4, 5, 6, 7, 8, 9, 10, 11, 12, 13, 14, 15, 16, 17, 24, 25, 31, 32, 33, 60, 63, 64, 65, 66, 120, 121, 127, 128, 129, 191, 192, 193, 250, 255, 256, 257, 320, 384, 511, 512, 513, 1024];
+const C08_WIDTHS_Q: &[usize] = &[0, 1, 2, 3, 4, 5, 6, 7, 8, 9, 10, 11, 12, 13, 14, 15, 16, 17, 24, 25, 40, 60, 63, 64, 65, 72, 120, 121, 127, 128, 129, 136, 192, 200, 250, 256, 257];
+const C08_WIDTHS_T: &[usize] = &[0, 1, 2, 3, 4, 5, 6, 7, 8, 9, 10, 11, 12, 13, 14, 15, 16, 17, 24, 25, 31, 32, 33, 40, 60, 63, 64, 65, 66, 72, 120, 121, 127, 128, 129, 136, 191, 192, 193, 200, 250, 255, 256, 257, 320, 384, 511, 512, 513, 1024];
 const ENC: &[Op] = &[
     Op::as_le_slice, Op::as_le_bytes, Op::as_le_bytes_trimmed, Op::to_le_bytes, Op::to_be_bytes, Op::to_le_bytes_vec, Op::to_be_bytes_vec,
     Op::to_le_bytes_trimmed_vec, Op::to_be_bytes_trimmed_vec,
@@ -787,8 +787,8 @@ fn c08(r: &Runner) {
 
 // ---------------------------------------------------------------- C18
 
-const C18_WIDTHS_Q: &[usize] = &[0, 1, 8, 24, 25, 53, 54, 63, 64, 65, 127, 128, 129, 256, 1023, 1024, 1025, 2048];
-const C18_WIDTHS_T: &[usize] = &[0, 1, 2, 7, 8, 16, 24, 25, 32, 53, 54, 63, 64, 65, 127, 128, 129, 192, 256, 512, 1023, 1024, 1025, 1100, 2048];
+const C18_WIDTHS_Q: &[usize] = &[0, 1, 8, 24, 25, 53, 54, 63, 64, 65, 72, 127, 128, 129, 256, 1023, 1024, 1025, 2048];
+const C18_WIDTHS_T: &[usize] = &[0, 1, 2, 7, 8, 16, 24, 25, 32, 53, 54, 63, 64, 65, 72, 127, 128, 129, 192, 256, 512, 1023, 1024, 1025, 1100, 2048];
 const FROM_F64: &[Op] = &[Op::try_from_f64, Op::from_f64, Op::wrapping_from_f64, Op::saturating_from_f64];
 const FROM_F32: &[Op] = &[Op::try_from_f32, Op::from_f32, Op::wrapping_from_f32, Op::saturating_from_f32];
 
